@@ -762,4 +762,107 @@ theorem visit_sim {j : PJ} (hg : Good j) (mid : Bool) {d : Delivery} (hd : ∀ t
         · rw [Core.mk.injEq]; exact ⟨f1, by rw [f3, e2], f2, by rw [f6, e4], rfl, hmem, rfl⟩
         · rw [f4, e5]; cases r.reset <;> simp [RAct.apply]
 
+/-! ## All environment steps, runs -/
+
+theorem memOf_congr {s s' : Slave} (h1 : s'.stored = s.stored) (h2 : s'.last = s.last) (h3 : s'.cfg = s.cfg)
+    (f : FrameCountBit) : memOf s' f = memOf s f := by
+  simp [memOf, h1, h2, h3]
+
+/-- **Simulation of every environment step** (`control_abstraction`). -/
+theorem step_sim {j : PJ} (hg : Good j) {e : PEnv} (he : e.WellFormed) :
+    ∃ j' ev, j.step e = some (j', ev) ∧ Good j' ∧ j'.fp = j.fp ∧ j'.op = j.op ∧ j'.s.cfg = j.s.cfg ∧
+      (ctl j', ev) = cstep j.fp.maxRetry (j.s.cfg.inLen == 0) (ctl j) (absEnv j.s.cfg.inLen e) := by
+  cases e with
+  | visit mid d =>
+    have hd : ∀ t, d = .sub t → RxOk t := by
+      intro t ht; subst ht; exact he
+    exact visit_sim hg mid hd
+  | power =>
+    obtain ⟨hfp, hop, hI, hm, hs⟩ := hg
+    refine ⟨_, _, rfl, ⟨hfp, hop, hI, hm, ⟨hs.inputs, rfl, rfl, by simp [Slave.power, Slave.init, kindOf]⟩⟩,
+      rfl, rfl, rfl, ?_⟩
+    simp [cstep, cstepCore, ctl, coreOf, absEnv, RAct.apply, Slave.power, Slave.init, memOf, isRetransmission]
+  | fault ext =>
+    obtain ⟨hfp, hop, hI, hm, hs⟩ := hg
+    refine ⟨_, _, rfl, ⟨hfp, hop, hI, hm, ⟨hs.inputs, hs.prmFault, hs.cfgFault, hs.last⟩⟩, rfl, rfl, rfl, ?_⟩
+    simp [cstep, cstepCore, ctl, coreOf, absEnv, RAct.apply, Slave.reportFault, memOf] <;> rfl
+  | diagReq =>
+    obtain ⟨hfp, hop, hI, hm, hs⟩ := hg
+    refine ⟨_, _, rfl, ⟨hfp, hop, pinv_reqDiag hI, matched_of_eq hm rfl rfl rfl rfl, hs⟩, rfl, rfl, rfl, ?_⟩
+    simp [cstep, cstepCore, ctl, coreOf, absEnv, RAct.apply, reqDiag]
+  | piq bs =>
+    obtain ⟨hfp, hop, hI, hm, hs⟩ := hg
+    by_cases hl : bs.length = j.p.piQ.length
+    · refine ⟨_, _, rfl, ⟨hfp, hop, ?_, ?_, hs⟩, rfl, rfl, rfl, ?_⟩
+      · simp only [hl, if_true]
+        exact ⟨hI.retry_le, hI.off_retry, hI.fcb, hI.ext, hI.prm, hI.cfg, by simp only [hl]; exact hI.piq, hI.addr⟩
+      · simp only [hl, if_true]
+        exact ⟨hm.addr, hm.prm, hm.ident, hm.identLt, hm.cfg, by simp only [hl]; exact hm.qlen, hm.ilen⟩
+      · simp [cstep, cstepCore, ctl, coreOf, absEnv, RAct.apply, hl]
+    · refine ⟨_, _, rfl, ⟨hfp, hop, by simp only [hl, if_false]; exact hI, by simp only [hl, if_false]; exact hm, hs⟩,
+        rfl, rfl, rfl, ?_⟩
+      simp [cstep, cstepCore, ctl, coreOf, absEnv, RAct.apply, hl]
+  | inputs bs =>
+    obtain ⟨hfp, hop, hI, hm, hs⟩ := hg
+    by_cases hl : bs.length = j.s.cfg.inLen
+    · refine ⟨_, _, rfl, ⟨hfp, hop, hI, by simp only [Slave.setInputs, hl, if_true]; exact hm,
+        ⟨by simp [Slave.setInputs, hl], by simp [Slave.setInputs, hl, hs.prmFault],
+         by simp [Slave.setInputs, hl, hs.cfgFault], by simp only [Slave.setInputs, hl, if_true]; exact hs.last⟩⟩,
+        rfl, rfl, by simp [Slave.setInputs, hl], ?_⟩
+      simp [cstep, cstepCore, ctl, coreOf, absEnv, RAct.apply, Slave.setInputs, hl, memOf]
+    · refine ⟨_, _, rfl, ⟨hfp, hop, hI, by simp only [Slave.setInputs, hl, if_false]; exact hm,
+        by simp only [Slave.setInputs, hl, if_false]; exact hs⟩, rfl, rfl, by simp [Slave.setInputs, hl], ?_⟩
+      simp [cstep, cstepCore, ctl, coreOf, absEnv, RAct.apply, Slave.setInputs, hl]
+
+/-- The abstract run matching a history. -/
+def crun (mr : Nat) (iz : Bool) (ilen : Nat) (c : Ctl) : List PEnv → Ctl × List PEvent
+  | [] => (c, [])
+  | e :: es =>
+    let r := cstep mr iz c (absEnv ilen e)
+    let r2 := crun mr iz ilen r.1 es
+    (r2.1, r.2.toList ++ r2.2)
+
+/-- Histories: the real run exists (no panic), keeps `Good`, and its control projection and events
+are those of the control machine. -/
+theorem run_sim : ∀ (es : List PEnv) {j : PJ}, Good j → (∀ e ∈ es, e.WellFormed) →
+    ∃ j' evs, j.run es = some (j', evs) ∧ Good j' ∧ j'.fp = j.fp ∧ j'.op = j.op ∧ j'.s.cfg = j.s.cfg ∧
+      (ctl j', evs) = crun j.fp.maxRetry (j.s.cfg.inLen == 0) j.s.cfg.inLen (ctl j) es := by
+  intro es
+  induction es with
+  | nil => intro j hg _; exact ⟨j, [], rfl, hg, rfl, rfl, rfl, rfl⟩
+  | cons e es ih =>
+    intro j hg hw
+    obtain ⟨j1, ev, h1, hg1, a1, a2, a3, hc1⟩ := step_sim hg (hw e (by simp))
+    obtain ⟨j2, evs, h2, hg2, b1, b2, b3, hc2⟩ := ih hg1 (fun e' he' => hw e' (by simp [he']))
+    refine ⟨j2, ev.toList ++ evs, ?_, hg2, by rw [b1, a1], by rw [b2, a2], by rw [b3, a3], ?_⟩
+    · simp only [PJ.run, h1, h2]
+    · rw [a1, a3] at hc2
+      rw [Prod.mk.injEq] at hc1 hc2
+      simp only [crun, ← hc1.1, ← hc1.2, ← hc2.1, ← hc2.2]
+
+/-- The fault-free continuation is `iterQ` on control. -/
+theorem quiet_sim : ∀ (n : Nat) {j : PJ}, Good j →
+    ∃ j' evs, j.quiet n = some (j', evs) ∧ Good j' ∧ j'.fp = j.fp ∧ j'.op = j.op ∧ j'.s.cfg = j.s.cfg ∧
+      ctl j' = iterQ j.fp.maxRetry (j.s.cfg.inLen == 0) n (ctl j) := by
+  intro n
+  induction n with
+  | zero => intro j hg; exact ⟨j, [], rfl, hg, rfl, rfl, rfl, rfl⟩
+  | succ n ih =>
+    intro j hg
+    obtain ⟨j1, ev, h1, hg1, a1, a2, a3, hc1⟩ := visit_sim hg false (d := .ok) (by intro t ht; cases ht)
+    obtain ⟨j2, evs, h2, hg2, b1, b2, b3, hc2⟩ := ih hg1
+    refine ⟨j2, ev.toList ++ evs, ?_, hg2, by rw [b1, a1], by rw [b2, a2], by rw [b3, a3], ?_⟩
+    · simp only [PJ.quiet, h1, h2]
+    · rw [a1, a3] at hc2
+      rw [Prod.mk.injEq] at hc1
+      rw [hc2, hc1.1]
+      rfl
+
+theorem jinv_run {mr : Nat} (hmr : 1 ≤ mr) (iz : Bool) (ilen : Nat) : ∀ (es : List PEnv) (c : Ctl),
+    jinv mr iz c = true → jinv mr iz (crun mr iz ilen c es).1 = true := by
+  intro es
+  induction es with
+  | nil => intro c h; exact h
+  | cons e es ih => intro c h; exact ih _ (jinv_step hmr h _)
+
 end PV.Live
